@@ -306,9 +306,14 @@ where
                     debug!(
                         "Rejecting cookie-less non-TCP request due to matching deny list entry"
                     );
-                    let builder = mk_builder_for_target();
-                    let mut additional = builder.additional();
-                    additional.header_mut().set_rcode(Rcode::REFUSED);
+                    // Echo the question: requestors match a response to
+                    // their query by it (RFC 5452 section 9.1) and would
+                    // otherwise discard this response and never retry
+                    // over TCP.
+                    let mut additional = mk_error_response(
+                        request.message(),
+                        OptRcode::REFUSED,
+                    );
                     additional.header_mut().set_tc(true);
                     return ControlFlow::Break(additional);
                 }
@@ -336,9 +341,12 @@ where
                 // cookie back with the response, so we don't do that here
                 // unlike in the other cases where we respond early.
                 debug!("Received malformed DNS cookie: {err}");
-                let mut builder = mk_builder_for_target();
-                builder.header_mut().set_rcode(Rcode::FORMERR);
-                return ControlFlow::Break(builder.additional());
+                // Echo the question so that the requestor can match the
+                // response to its query (RFC 5452 section 9.1).
+                return ControlFlow::Break(mk_error_response(
+                    request.message(),
+                    OptRcode::FORMERR,
+                ));
             }
 
             Some(Ok(cookie)) => {
